@@ -41,7 +41,11 @@ DCs(c)         == {c.dc[n] : n \in c.live}
 NodesIn(c, d)  == {n \in c.live : c.dc[n] = d}
 EvenlySpread(c) == \A d1, d2 \in DCs(c) : Cardinality(NodesIn(c, d1)) = Cardinality(NodesIn(c, d2))
 Fresh(c)       == c.old = <<>>
-SpreadPremise(c) == Fresh(c) /\ EvenlySpread(c) /\ Cardinality(DCs(c)) >= c.R
+\* dc[n] >= 1: node n carries the data-centre tag number dc[n]; dc[n] <= 0: it carries no usable
+\* tag (absent, empty, not a string).  The data-centre guarantee is only read for node sets in
+\* which every live node is tagged (weakest sound sense); all other clauses hold for any mix.
+AllTagged(c) == \A n \in c.live : c.dc[n] >= 1
+SpreadPremise(c) == Fresh(c) /\ AllTagged(c) /\ EvenlySpread(c) /\ Cardinality(DCs(c)) >= c.R
 DCSpread(c, out) ==
   \A p \in DOMAIN out : \A i, j \in DOMAIN out[p] : i # j => c.dc[out[p][i]] # c.dc[out[p][j]]
 
